@@ -80,6 +80,7 @@ func suite(length int) hlib.Suite {
 					k := 0
 					fn := api.WithJitter(func(time.Time) int { v := sq.f(k); return v }, j)
 					input := fmt.Sprintf("jitter=%v rates=%s random-script=%d (base %d digits, u in %v)", j, sq.name, code, len(uAlpha), uAlpha)
+					r.SampleCase(input)
 					balance := 0.0
 					sumOut, sumRate := 0, 0
 					for k = 0; k < length; k++ {
